@@ -1023,7 +1023,7 @@ func (c *checker) check(stage string) {
 		}
 	}
 	// probes: big data sets split them over a few goroutines (engine reads are concurrency-safe)
-	if n := len(c.spec.Probes); n > 4000 {
+	if n := len(c.spec.Probes); n > 1000 {
 		const par = 8
 		var wg sync.WaitGroup
 		for g := 0; g < par; g++ {
@@ -1380,11 +1380,14 @@ func newSortedU(keys []string) *sortedU {
 }
 
 // systematic probes around every stored key
-func probesAround(keys []string) []string {
+func probesAround(keys []string, step int) []string {
 	s := append([]string(nil), keys...)
 	sort.Slice(s, func(i, j int) bool { return cmpS(s[i], s[j]) < 0 })
 	out := []string{""}
 	for i, k := range s {
+		if i%step != 0 {
+			continue
+		}
 		out = append(out, k, k+"\x00", k+"/", k[:len(k)-1])
 		b := []byte(k)
 		b[len(b)-1]++
@@ -1454,9 +1457,9 @@ func hierKeys(n int, prefix string) []string {
 
 func bigSpecs(U3 []string, thorough bool) []*dsSpec {
 	var out []*dsSpec
-	nr := 4
+	nr, step := 4, 2 // quick: fewer scan end points, probes around every 2nd key (every key still gets its exact get)
 	if thorough {
-		nr = 10
+		nr, step = 10, 1
 	}
 	stored := U3[1:] // the empty key is not stored
 	out = append(out, &dsSpec{Name: "universe", Keys: stored, ValSize: constSize(blockValue), Probes: U3, Ranges: everyNth(stored, nr+2), Mutate: true,
@@ -1470,11 +1473,11 @@ func bigSpecs(U3 []string, thorough bool) []*dsSpec {
 			sfx = "-db"
 		}
 		if thorough || !viaDB {
-			out = append(out, &dsSpec{Name: "hier1k-longkeys" + sfx, Keys: h1, ValSize: constSize(blockValue), Probes: probesAround(h1), Ranges: everyNth(h1, nr), Mutate: true, ViaDB: viaDB,
+			out = append(out, &dsSpec{Name: "hier1k-longkeys" + sfx, Keys: h1, ValSize: constSize(blockValue), Probes: probesAround(h1, step), Ranges: everyNth(h1, nr), Mutate: true, ViaDB: viaDB,
 				Replay: map[string]any{"kind": "generated", "name": "hier1k-longkeys" + sfx}})
 		}
 		if thorough || viaDB {
-			out = append(out, &dsSpec{Name: "hier5k" + sfx, Keys: h5, ValSize: func(i int) int { return 6000 + (i%7)*1500 }, Probes: probesAround(h5), Ranges: everyNth(h5, nr), Mutate: true, ViaDB: viaDB,
+			out = append(out, &dsSpec{Name: "hier5k" + sfx, Keys: h5, ValSize: func(i int) int { return 6000 + (i%7)*1500 }, Probes: probesAround(h5, step), Ranges: everyNth(h5, nr), Mutate: true, ViaDB: viaDB,
 				Replay: map[string]any{"kind": "generated", "name": "hier5k" + sfx}})
 		}
 	}
